@@ -743,9 +743,27 @@ class DiffXFileSection(ContainerOptionsMixin,
                 self.diff,
                 encoding=self.diff_encoding)
 
+        diff = self.diff
+
+        if self.diff_encoding:
+            # The hunk parser recognises hunk headers and changed lines by
+            # their ASCII markers. Work with the diff as UTF-8, so that those
+            # can be found whatever the encoding (UTF-16/32, or a leading
+            # BOM, would otherwise hide them). If the content isn't actually
+            # in the stated encoding, leave it as it is.
+            try:
+                utf8_diff = diff.decode(self.diff_encoding).encode('utf-8')
+                utf8_newline = \
+                    newline.decode(self.diff_encoding).encode('utf-8')
+            except ValueError:
+                pass
+            else:
+                diff = utf8_diff
+                newline = utf8_newline
+
         try:
             hunks_info = get_unified_diff_hunks(
-                split_lines(data=self.diff,
+                split_lines(data=diff,
                             newline=newline),
                 ignore_garbage=True)
         except Exception as e:
